@@ -134,11 +134,34 @@ async def _run(loop, sc):
                 finally:
                     running[0] -= 1
             return job
-        for i, arr in enumerate(sc["sources"]):
-            p = P(i, arr)
-            p.src = core_event.FifoQueueEventSource(producer=p)
-            srcs.append(p.src)
-            d.subscribe(p.src, make_handler(i))
+        class SharedProducer(bs.Producer):
+            """one connection feeding several channels: a single producer object behind all the sources"""
+            def __init__(self, per_source):
+                self.merged = sorted(((at, i, when, eid, dur) for i, arr in enumerate(per_source)
+                                      for at, when, eid, dur in arr), key=lambda x: (x[0], x[1]))
+                self.srcs = []
+
+            async def main(self):
+                for at, i, when, eid, dur in self.merged:
+                    delay = at / MS - loop.time()
+                    if delay > 0:
+                        await asyncio.sleep(delay)
+                    self.srcs[i].push(Ev(T0 + datetime.timedelta(milliseconds=when), eid, dur))
+                    log.append(("arrive", i, when, eid, ms(fake_now())))
+
+        if sc.get("shared_producer") and len(sc["sources"]) >= 2:
+            sp = SharedProducer(sc["sources"])
+            for i, arr in enumerate(sc["sources"]):
+                src = core_event.FifoQueueEventSource(producer=sp)
+                sp.srcs.append(src)
+                srcs.append(src)
+                d.subscribe(src, make_handler(i))
+        else:
+            for i, arr in enumerate(sc["sources"]):
+                p = P(i, arr)
+                p.src = core_event.FifoQueueEventSource(producer=p)
+                srcs.append(p.src)
+                d.subscribe(p.src, make_handler(i))
         class TwinJob:
             """one callable scheduled several times for the same instant: each run takes the next job id"""
             def __init__(self, jids, when):
@@ -417,7 +440,9 @@ def gen_scenario(rnd, model=False):
         fold_srcs = [i for i in range(n_src) if rnd.random() < 0.7] or [0]
     return {"sources": sources, "jobs": jobs, "bev": bev, "raise": rz, "n_idle": rnd.choice([0, 1, 2]),
             "mc": 50 if model else rnd.choice([1, 2, 5, 50]), "end": end, "job_tz": job_tz,
-            "fold_ms": fold_ms, "fold_srcs": fold_srcs}
+            "fold_ms": fold_ms, "fold_srcs": fold_srcs,
+            # one producer object behind all the sources (the channels of one connection)
+            "shared_producer": (not model) and n_src >= 2 and rnd.random() < 0.4}
 
 
 def gen_stale(rnd, n=150):
